@@ -84,14 +84,15 @@ def generate(streams: Streams, tier: str, index: int) -> dict:
 # --------------------------------------------------------------------------- execution
 
 
-BUILDS = ["ctor", "ctor", "append", "linked", "sliced", "copied", "pickled"]
+BUILDS = ["ctor", "ctor", "append", "linked", "sliced", "copied", "pickled", "file"]
 
 
 def build_etc(frames, how: str = "ctor"):
     """The time course handed to the tracker, with one of several pasts (all give the same
     frames and times): constructor, frame-by-frame append, emulsions whose members are views
     into one linked array, a slice of a longer time course, a copy-constructed one, one that
-    crossed a process boundary."""
+    crossed a process boundary, one that was written to and read back from a file (simulated
+    disk; only when every frame holds one droplet class, which is what a file can store)."""
     import droplets as dr
 
     ems = [dr.Emulsion([scenes.make_droplet(s) for s in f["droplets"]]) for f in frames]
@@ -118,6 +119,18 @@ def build_etc(frames, how: str = "ctor"):
         import pickle
 
         etc = pickle.loads(pickle.dumps(etc))
+    elif how == "file" and all(len({type(d) for d in e}) <= 1 and len({d.data.dtype for d in e}) <= 1
+                               for e in etc.emulsions):
+        from simkit import simfs
+
+        with simfs.SimFS():
+            path = f"{simfs.ROOT}/c06_etc.h5"
+            etc.to_file(path)
+            back = dr.EmulsionTimeCourse.from_file(path, progress=False)
+        # the file is only the vehicle: the frames must be the ones of the history (C08 decides
+        # round trips); otherwise keep the constructor-built object
+        if [x[1:] for x in etc_fingerprint(back)] == [x[1:] for x in etc_fingerprint(etc)]:
+            etc = back
     return etc
 
 
